@@ -741,6 +741,16 @@ func LoadProgram(repo string, props map[string]bool) (*Program, error) {
 		n := 0
 		for _, cf := range byDir[d] {
 			n += len(cf.Items)
+			// loop invariants are injected regardless of the property filter: the ghost
+			// declarations they may refer to must then be present as well
+			if len(cf.Decls) > 0 {
+				for _, it := range allItems[d] {
+					if len(it.Loops) > 0 || len(it.Ghosts) > 0 {
+						n++
+						break
+					}
+				}
+			}
 		}
 		if n == 0 {
 			continue
